@@ -4,8 +4,8 @@ import (
 	_ "embed"
 	"encoding/json"
 	"fmt"
-	"os"
 	"math/rand"
+	"os"
 	"path/filepath"
 	"sort"
 	"strings"
@@ -27,12 +27,12 @@ const tracerKey = "verif/tracer"
 
 type Feat struct {
 	Prefix, Suffix, Namespace, Labels, Annotations, Images, Replicas bool
-	PatchSM, PatchJSON, Replacements, Generators, LegacySort        bool
-	Adversarial                                                     bool // adversarial scalars in free fields
-	Refs                                                            bool // reference edges between resources
-	Deprecated                                                      bool // deprecated spellings (C19)
-	Dense                                                           bool // more resources and referrers per layer
-	MaxLayers                                                       int
+	PatchSM, PatchJSON, Replacements, Generators, LegacySort         bool
+	Adversarial                                                      bool // adversarial scalars in free fields
+	Refs                                                             bool // reference edges between resources
+	Deprecated                                                       bool // deprecated spellings (C19)
+	Dense                                                            bool // more resources and referrers per layer
+	MaxLayers                                                        int
 }
 
 func allFeat() Feat {
@@ -53,9 +53,9 @@ type GenRes struct {
 // Edge: the field at Path of resource From holds the name of resource To.
 type Edge struct {
 	NoRule bool // the field is not covered by the name-reference rules: must stay UNCHANGED (external-looking)
-	From string
-	Path []interface{} // string keys and int indices
-	To   string
+	From   string
+	Path   []interface{} // string keys and int indices
+	To     string
 }
 
 type KLayer struct {
@@ -83,12 +83,13 @@ type PatchSpec struct {
 }
 
 type Tree struct {
-	Layers []*KLayer // 0 = innermost base, last = top
-	Res    []*GenRes
-	Edges  []Edge
-	Feat   Feat
-	Notes  []string
-	nextID int
+	Layers   []*KLayer // 0 = innermost base, last = top
+	Res      []*GenRes
+	Edges    []Edge
+	Feat     Feat
+	Notes    []string
+	BaseLast bool // list the child directory after the files (needed to compare with the deprecated `bases`)
+	nextID   int
 }
 
 var nameFamilies = [][]string{
@@ -783,7 +784,7 @@ func (t *Tree) Write(fs filesys.FileSystem, root string) error {
 			return err
 		}
 		var resList []interface{}
-		if li > 0 {
+		if li > 0 && !t.BaseLast {
 			resList = append(resList, "../"+t.Layers[li-1].Dir)
 		}
 		for _, fn := range L.ResF {
@@ -804,8 +805,20 @@ func (t *Tree) Write(fs filesys.FileSystem, root string) error {
 			resList = append(resList, fn)
 		}
 		k := Obj{"apiVersion": "kustomize.config.k8s.io/v1beta1", "kind": "Kustomization"}
+		useBases := false
 		for kk, v := range L.Kust {
+			if kk == "_bases" {
+				useBases = true
+				continue
+			}
 			k[kk] = v
+		}
+		if li > 0 && t.BaseLast {
+			if useBases {
+				k["bases"] = []interface{}{"../" + t.Layers[li-1].Dir}
+			} else {
+				resList = append(resList, "../"+t.Layers[li-1].Dir)
+			}
 		}
 		if len(resList) > 0 {
 			k["resources"] = resList
